@@ -86,6 +86,15 @@ func appCases(args []string) {
 			id++
 			w.Emit(appCase{ID: id, Mode: "c11", In: tr.Ints(in), Hold: 0, Display: dr[0], Record: dr[1], Chunk: []int{0, 64, 1, 4096}[k%4], Seed: rng.Int63(), Cls: "c11-files"})
 		}
+		// small inputs repeated many times: record only, display only, both
+		for k, dr := range [][2]bool{{false, true}, {true, false}, {true, true}} {
+			in := gen.Cat(gen.Frame(rng, 1005, 19, 0), gen.Frame(rng, 1006, 21, 0), tr.Frame(gen.RandomMSM(rng, 1077, 7, 0, 0, 0).Encode()))
+			if k == 0 {
+				in = gen.Cat(in, gen.Frame(rng, 1230, 6, 0))
+			}
+			id++
+			w.Emit(appCase{ID: id, Mode: "c11", In: tr.Ints(in), Hold: 0, Display: dr[0], Record: dr[1], Chunk: 0, Seed: rng.Int63(), Cls: "c11-files-repeat"})
+		}
 		// inputs for the built programs (no MSM with a bad time: the display is compared byte for byte)
 		for k := 0; k < 3; k++ {
 			var in []byte
